@@ -7,9 +7,10 @@ namespace Oas3.Driver.Inject
 def sOf (j : Json) (k : String) : String := (fieldD j k (Json.str "")).getStr?.toOption.getD ""
 def lOf (j : Json) (k : String) : List Json := (arr (fieldD j k (Json.arr #[]))).toOption.getD []
 
-/-- documented normalisation of doc text: literal `\n` becomes a newline, text is split on lines, each line trimmed -/
+/-- documented normalisation of doc text: literal `\n` becomes a newline, text is split on lines (a lone carriage return
+ends a line too, see `Lex.docAttrs`), each line trimmed -/
 def docLines (s : String) : List String :=
-  ((s.replace "\\n" "\n").splitOn "\n").map (fun l => l.trimAscii.toString) |>.filter (!·.isEmpty)
+  ((((s.replace "\\n" "\n").replace "\r\n" "\n").replace "\r" "\n").splitOn "\n").map (fun l => l.trimAscii.toString) |>.filter (!·.isEmpty)
 
 /-- undo Rust string-literal escaping (`escape_default`-style) as used when a value is shown inside a doc example -/
 def unescape : List Char → List Char
